@@ -215,6 +215,22 @@ def step (st : St) (op : List String) (impl : String) : LineOut St :=
     let model := r.model.map fun m => if m == "bad-op" then m else m ++ " ops=" ++ showOps newOps
     { state := st2, model := model, monitor := r.monitor }
 
-def checker : Checker := { σ := St, init := {}, step := step }
+/-- After the first disagreement between model and implementation the model is no longer
+compared (its state is unreliable) but the MONITOR keeps judging the implementation's
+outputs, so that a broken implementation still yields a concrete failing input; the
+disagreement itself is reported through the monitor channel (key `model-mismatch`). -/
+def stepD (st : St × Bool) (op : List String) (impl : String) : LineOut (St × Bool) :=
+  let r := step st.1 op impl
+  if st.2 then { state := (r.state, true), model := none, monitor := r.monitor }
+  else match r.model with
+    | some m =>
+      if m != impl then
+        { state := (r.state, true), model := none,
+          monitor := r.monitor.orElse fun _ => some ("model-mismatch",
+            s!"model and implementation disagree: model [{(m.take 300).toString}] implementation [{(impl.take 300).toString}]") }
+      else { state := (r.state, false), model := r.model, monitor := r.monitor }
+    | none => { state := (r.state, false), model := none, monitor := r.monitor }
+
+def checker : Checker := { σ := St × Bool, init := ({}, false), step := stepD }
 
 end SerfModel.Check.C11
